@@ -109,7 +109,10 @@ def execute(case, ctx):
                         del remaining[idx]
                         break
             try:
-                d.dispatch(*choice)
+                if len(choice[0].machines) == 1 and (k + len(remaining)) % 3 == 0:
+                    d.dispatch(choice[0])  # the machine of a single-machine operation may be left out
+                else:
+                    d.dispatch(*choice)
             except Exception as e:  # noqa: BLE001
                 crashed(e, f"dispatch of the surviving operation ({choice[0].job_id},{choice[0].position_in_job}) on machine {choice[1]}")
                 dead_end = True
